@@ -115,7 +115,7 @@ def r12a(model: Model, rr: RuleResult):
     if len(c) == 1 and kwarg(c[0], "table_version") is not None and norm(kwarg(c[0], "table_version")) == g.params[-1]:
         rr.ok("_generate_colr_from_svg forwards colr_version as table_version")
     else:
-        rr.bad(g, g.node, "colr_version is not forwarded as table_version", construct="_generate_colr_from_svg: table_version")
+        rr.bad_shape(g, g.node, "colr_version is not forwarded as table_version", construct="_generate_colr_from_svg: table_version")
     cf = model.func("maximum_color", "WriteFontInputs.color_format")
     ok = any(isinstance(n, ast.JoinedStr) and "glyf_colr_" in norm(n) and "table_version" in norm(n) for n in ast.walk(cf.node))
     if ok:
@@ -301,7 +301,7 @@ def r12e(model: Model, rr: RuleResult):
     if v1 and v0:
         rr.ok("_copy_colr: v1 copies glyphs of every PaintGlyph, v0 copies every layer glyph")
     else:
-        rr.bad(fi, fi.node, "_copy_colr does not collect the glyphs the donor COLR references (PaintGlyph.Glyph for v1, layer names for v0)",
+        rr.bad_shape(fi, fi.node, "_copy_colr does not collect the glyphs the donor COLR references (PaintGlyph.Glyph for v1, layer names for v0)",
                construct="_copy_colr: glyphs_to_copy")
     sgo = find_calls(fi, "setGlyphOrder")
     loops = [st for st in walk_body(fi) if isinstance(st, ast.For) and norm(st.iter) == "glyphs_to_copy"]
@@ -317,7 +317,7 @@ def r12e(model: Model, rr: RuleResult):
         if any(isinstance(n, ast.Assign) and tag in norm(n.targets[0]) and "donor" in norm(n.value) and tag in norm(n.value) for n in walk_body(fi)):
             rr.ok(f"_copy_colr: {tag} grafted from donor")
         else:
-            rr.bad(fi, fi.node, f"_copy_colr does not graft {tag}", construct=f"_copy_colr: {tag}")
+            rr.bad_shape(fi, fi.node, f"_copy_colr does not graft {tag}", construct=f"_copy_colr: {tag}")
     sfi = model.func("glue_together", "_copy_svg")
     scfg = cfg_of(sfi)
     ro = find_calls(sfi, "reorder_glyphs")
@@ -345,4 +345,4 @@ def r12e(model: Model, rr: RuleResult):
     if srt:
         rr.ok("_copy_cbdt: bitmaps ordered by the target's glyph ids")
     else:
-        rr.bad(cfi, cfi.node, "_copy_cbdt does not order bitmaps by the target's glyph ids", construct="_copy_cbdt: order")
+        rr.bad_shape(cfi, cfi.node, "_copy_cbdt does not order bitmaps by the target's glyph ids", construct="_copy_cbdt: order")
